@@ -8,14 +8,17 @@
        (id as thrift.FieldID 0..65535, key, type) where the key stands for FieldDescriptor.Alias() AND for the key
        StructDescriptor.FieldByKey resolves (the default Options.MapFieldWay). A descriptor of type STOP (never produced by
        an IDL) is outside the model: it is treated like every other unsupported type code.
-     - the writer threads the output buffer and a status: 0 nil error, 1 error, 2 outside the model (float / text
-       conversions of the cast mode through internal/primitive that are not transcribed, fuel exhausted).
+     - the writer threads the output buffer and a status: 0 nil error, 1 error, 2 outside the model (the text conversions of
+       floats in the cast mode - strconv.ParseFloat / FormatFloat / fmt %v through internal/primitive - and fuel exhausted).
+       The numeric conversions of the cast mode are transcribed: ToBool tests the ORIGINAL value against zero, ToInt64
+       truncates floats toward zero (out of range / NaN: the amd64 result -2^63), ToFloat64 rounds integers correctly.
      - the reader works on the bytes left in the buffer and answers the value and the bytes left after it (None = error).
        A container count larger than the number of bytes left is rejected at once: every element of every supported type
        takes at least one byte, so the element loop of the code fails with EOF before the count is reached.
    Model only - the theorems are in proofs/ThriftAnyDescProofs.v. *)
 From Coq Require Import ZArith List Bool.
 From DG Require Import CaseFormat ProtoWireRef ThriftWire ThriftGeneric ThriftEnvelope.
+From DG Require Num P2J J2P.
 Import ListNotations.
 Local Open Scope Z_scope.
 
@@ -127,12 +130,22 @@ Fixpoint dec_digits (fuel : nat) (n : Z) (acc : list Z) : list Z :=
   end.
 Definition dec_text (n : Z) : list Z := if n <? 0 then 45 :: dec_digits 25 (- n) [] else dec_digits 25 n [].
 
+(* int64(v) for a float64 v: truncation toward zero; a NaN, an infinity or a value outside int64 gives what the amd64
+   conversion instruction (CVTTSD2SQ) gives, the 'integer indefinite' -2^63 (the Go specification leaves it open) *)
+Definition f64_to_int64 (b : Z) : Z :=
+  if negb (Num.f64_is_finite b) then - 2 ^ 63 else
+  let '(neg, M, k) := P2J.f64_decomp b in
+  let mag := if 0 <=? k then M * 2 ^ k else M / 2 ^ (- k) in
+  let z := if neg then - mag else mag in
+  if in_sb 64 z then z else - 2 ^ 63.
+
 (* Some (Some x) value, Some None error, None outside the model *)
 Definition to_int64 (g : gval) : option (option Z) :=
   match g with
   | GBool b => Some (Some (if b then 1 else 0))
   | GInt t z => if is_goint t then Some (Some (to_s 64 z)) else Some None
-  | GF32 _ | GF64 _ => None
+  | GF32 b => Some (Some (f64_to_int64 (P2J.widen32 b)))
+  | GF64 b => Some (Some (f64_to_int64 b))
   | GStr s | GBytes s => Some (parse_int64 s)
   | _ => Some None
   end.
@@ -149,8 +162,9 @@ Definition to_float64 (g : gval) : option (option Z) :=
   match g with
   | GBool b => Some (Some (if b then 4607182418800017408 else 0))
   | GF64 b => Some (Some b)
-  | GInt t _ => if is_goint t then None else Some None
-  | GF32 _ | GStr _ | GBytes _ => None
+  | GInt t z => if is_goint t then Some (Some (J2P.int2f64 z)) else Some None     (* float64(v), correctly rounded *)
+  | GF32 b => Some (Some (P2J.widen32 b))                                         (* exact (quiet NaNs only) *)
+  | GStr _ | GBytes _ => None                                                     (* strconv.ParseFloat *)
   | _ => Some None
   end.
 Definition to_string (g : gval) : option (option (list Z)) :=
